@@ -472,7 +472,7 @@ func (x *exec) callbackCall(s *State, fv Value, args []Value, res *types.Tuple, 
 	e.noteWrite(s, "*", wtarget{kind: wAll})
 	for _, key := range sortedSortKeys(e.heapSorts) {
 		so := e.heapSorts[key]
-		if strings.HasPrefix(key, "ghost:") {
+		if strings.HasPrefix(key, "ghost:") || e.isFinal(key) {
 			continue
 		}
 		s.heap[key] = e.C.Fresh("cb.H{"+key+"}", so)
@@ -569,6 +569,12 @@ func (x *exec) builtin(s *State, name string, args []Value, cc *ssa.CallCommon, 
 		h := e.heapGet(s, "chan#closed", Array(Int, Bool))
 		x.oblige("chan", "", pos, s, c.And(c.Ne(ch, c.IntC(0)), c.Not(c.Select(h, ch))), "close of nil or closed channel")
 		e.heapSet(s, "chan#closed", c.Store(h, ch, c.True()))
+		{
+			// "closed by the code under verification itself" (spec: closedhere_(ch)):
+			// only close() writes this ghost, no havoc touches it
+			hh := e.heapGet(s, "chan#closedhere", Array(Int, Bool))
+			e.heapSet(s, "chan#closedhere", c.Store(hh, ch, c.True()))
+		}
 		return nil
 	case "min", "max":
 		r := args[0]
